@@ -79,6 +79,18 @@ func EngineRun(p *Program, funcs map[string]jet.Func) (jetrun.Outcome, jet.VarMa
 	if p.Data != nil {
 		data = Build(*p.Data)
 	}
+	if p.PriorEntry != "" {
+		func() {
+			defer func() { recover() }()
+			if t0, o0 := jetrun.Get(s, p.PriorEntry); !o0.Failed() {
+				var data0 interface{}
+				if p.PriorData != nil {
+					data0 = Build(*p.PriorData)
+				}
+				_ = t0.Execute(io.Discard, nil, data0)
+			}
+		}()
+	}
 	if p.BrokenFirst > 0 {
 		func() {
 			defer func() { recover() }()
